@@ -40,6 +40,8 @@ structure TC where
   timeout : Option Nat
   /-- does the *empty* output satisfy the expectations (all optional)? -/
   accEmpty : Bool
+  /-- `config.wait`: milliseconds that pass before the command is started (0 = none) -/
+  wait : Nat := 0
 deriving Repr
 
 /-- an `Output`: status plus whether stdout / stderr are accepted by the test's expectations -/
@@ -111,6 +113,8 @@ def execLoop (limit : Option Nat) (runner : Runner) :
     ExecResult × List (Option Nat)
   | [], _, _, acc, limits => (.ok acc, limits)
   | tc :: rest, idx, now, acc, limits =>
+    -- since fix 5800e20 the wait of the test case comes before the remaining time is looked at
+    let now := now + tc.wait
     let remaining := limit.map (· - now)          -- `Instant::duration_since` saturates
     let (isGlobal, lim) := effective tc.timeout remaining
     let (o, elapsed) := runner idx lim
@@ -191,13 +195,5 @@ def honest (cmds : Nat → Nat × Out) : Runner := fun i lim =>
   match lim with
   | some l => if l ≤ dur then (⟨.timeout, false, false⟩, l) else (fin, dur)
   | none => (fin, dur)
-
-/-- … for a test case with `config.wait`: `wait` ms pass between the computation of the limit and
-    the start of the command (`sleep(wait.timeout)` in `execute_all` comes after the `min`): the
-    limit handed to the runner is not reduced by it, the clock is -/
-def honestWait (cmds : Nat → Nat × Nat × Out) : Runner := fun i lim =>
-  let (wait, dur, fin) := cmds i
-  let r := honest (fun _ => (dur, fin)) i lim
-  (r.1, wait + r.2)
 
 end Scrut.Exec
